@@ -9,6 +9,8 @@ import (
 	"verif/harness/props/c04"
 	"verif/harness/props/c05"
 	"verif/harness/props/c06"
+	"verif/harness/props/c09"
+	"verif/harness/props/c13"
 	"verif/harness/props/c14"
 	"verif/harness/props/c17"
 	"verif/harness/props/c18"
@@ -24,6 +26,8 @@ func Specs() map[string]*core.Spec {
 		c04.Spec(),
 		c05.Spec(),
 		c06.Spec(),
+		c09.Spec(),
+		c13.Spec(),
 		c14.Spec(),
 		c17.Spec(),
 		c18.Spec(),
